@@ -110,7 +110,7 @@ def batch_entry(modname, cache, pkgkind, seed, frm, count, progress):
         for k, v in r.get("counters", {}).items():
             cnt[k] = cnt.get(k, 0) + v
         if r.get("nontrivial", True):
-            res["hashes"].add(op_kinds_hash(h))
+            res["hashes"].add(getattr(mod, "history_hash", op_kinds_hash)(h))
         res["digest"].append([i, r.get("digest"), len(r["violations"])])
         if len(res["samples"]) < 1 and not r["violations"] and i % 53 == 7:
             res["samples"].append(h)
